@@ -643,15 +643,13 @@ Excluded_F_C05_10(F, f) ==
 
 Class(X, FJ, f) ==
     LET F == FJ[f.j] IN
-    CASE Excluded_F_C05_5(X, f) -> "F-C05-5 assertion to a struct type from a non-empty interface one of whose methods has a pointer receiver"
-      [] Excluded_F_C05_2(F, f) -> "F-C05-2 nil interface value in a two-result assertion or type switch"
-      [] Excluded_F_C05_4(F, f) -> "F-C05-4 assertion or type switch on a value of host interface type (error, fmt.Stringer) holding an interpreted value"
+    \* (F-C05-2, F-C05-5, F-C05-7 and F-C05-9 are REPAIRED in /repo (00346cf, ad0bf2c, 94987eb, 2f66119): their
+    \* classes are generated by every tier again; the predicates stay above as the record of what they were)
+    CASE Excluded_F_C05_4(F, f) -> "F-C05-4 assertion or type switch on a value of host interface type (error, fmt.Stringer) holding an interpreted value"
       [] Excluded_F_C05_3(F, f) -> "F-C05-3 assertion to an interface type or type switch on an interface{} holding an interpreted struct or pointer"
       [] Excluded_F_C05_6(F, f) -> "F-C05-6 struct value held by an interface or method value, variable mutated afterwards"
-      [] Excluded_F_C05_7(F, f) -> "F-C05-7 method expression of a promoted method, of a value method through *T, or used as a function value"
       [] Excluded_F_C05_8(F, f) -> "F-C05-8 interpreted value with Error/String/Write methods passed to a fmt function"
       [] Excluded_F_C05_10(F, f) -> "F-C05-10 assertion to a host interface type of an interface value received as a parameter"
-      [] Excluded_F_C05_9(FJ, f) -> "F-C05-9 method also declared deeper below an earlier embedded field (depth-first lookup)"
       [] OTHER -> ""
 
 \* (FJ[j]: the facts about the root type of the form's dynamic value)
